@@ -18,6 +18,12 @@ Theorem C24_malformed_rejected : forall fixed p, pg_mal p <> WellFormed -> accep
 Proof. exact malformed_rejected. Qed.
 Print Assumptions C24_malformed_rejected.
 
+(* the number of local-definition slots the compiler declares (and tests the locals limit with) is the
+   number the generated code indexes, whatever the position of the dependency that needs most *)
+Theorem C24_ldef_counted_is_needed : forall f, ldef_counted f = ldef_needed f.
+Proof. exact ldef_counted_is_needed. Qed.
+Print Assumptions C24_ldef_counted_is_needed.
+
 (* the pinned tree (before the repair commit) violated the property: kept as a witness *)
 Theorem C24_prefix_counting_refuted : exists p, accept false p = true /\ ~ within_limits p.
 Proof. exact prefix_counting_refuted. Qed.
@@ -26,8 +32,9 @@ Print Assumptions C24_prefix_counting_refuted.
 (* non-vacuity: a program at the limits is accepted *)
 Example C24_example_at_limit :
   accept true {| pg_mal := WellFormed;
-                 pg_funcs := [ {| fn_locals := 20; fn_ldef := 0;
+                 pg_funcs := [ {| fn_locals := 17; fn_pdefs := 1;
                    fn_flows := repeat {| fl_access := AccRW;
-                                         fl_deps := repeat {| dp_in := true; dp_guard := GTernary |} 5 ++
-                                                    repeat {| dp_in := false; dp_guard := GBinary |} 10 |} 20 |} ] |} = true.
+                                         fl_deps := repeat {| dp_in := true; dp_guard := GTernary; dp_ldefs := 0; dp_ct := 0; dp_cf := 0 |} 5 ++
+                                                    [ {| dp_in := false; dp_guard := GBinary; dp_ldefs := 1; dp_ct := 1; dp_cf := 0 |} ] ++
+                                                    repeat {| dp_in := false; dp_guard := GBinary; dp_ldefs := 0; dp_ct := 0; dp_cf := 0 |} 9 |} 20 |} ] |} = true.
 Proof. vm_compute. reflexivity. Qed.
